@@ -25,6 +25,7 @@ import (
 	"github.com/olive-io/bpmn/v2/pkg/event"
 	"github.com/olive-io/bpmn/v2/pkg/logic"
 	"github.com/olive-io/bpmn/v2/pkg/tracing"
+	"github.com/olive-io/bpmn/v2/pkg/verifhook"
 )
 
 type processEventMessage struct {
@@ -68,6 +69,7 @@ func (evt *catchEvent) run(ctx context.Context, sender tracing.ISenderHandle) {
 		case msg := <-evt.mch:
 			switch m := msg.(type) {
 			case processEventMessage:
+				verifhook.Point("catch.event")
 				if evt.activated.Load() {
 					evt.tracer.Send(EventObservedTrace{Node: evt.element, Event: m.event})
 					if satisfied, _ := evt.satisfier.Satisfy(m.event); satisfied {
@@ -94,6 +96,7 @@ func (evt *catchEvent) run(ctx context.Context, sender tracing.ISenderHandle) {
 }
 
 func (evt *catchEvent) ConsumeEvent(ev event.IEvent) (result event.ConsumptionResult, err error) {
+	verifhook.Point("catch.consume")
 	evt.mch <- processEventMessage{event: ev}
 	result = event.Consumed
 	return
